@@ -18,6 +18,12 @@
 (*     wheel codes as their scroll event (on the press only);                *)
 (*  I4 nothing else is ever sent.                                            *)
 (*                                                                         *)
+(* Part 1b, output paths ("paths" \in DOMAIN p).  The configuration sends    *)
+(* a no-op key down some output path (macro item, sequence replay, one-shot, *)
+(* tap-hold, override output, virtual key, dynamic macro replay, ...).  Only *)
+(* I2 is required there: whatever else comes out, no OS key event ever       *)
+(* carries one of the reserved no-op codes.                                  *)
+(*                                                                         *)
 (* Part 2, the intercept set: Intercept(q, known) for a text-level           *)
 (* description q = [defsrc, lmap, pu, exc] (sequences of codes, pu boolean). *)
 (***************************************************************************)
@@ -41,8 +47,14 @@ Expected(p, press, c) ==
 
 HasNoOp(out) == \E i \in DOMAIN out : out[i][1] \in {"d", "u"} /\ out[i][2] \in 676..685
 
+PathsMode(p) == "paths" \in DOMAIN p
+
 MonIn(m, r) ==
   IF m.err # "" THEN m
+  ELSE IF PathsMode(m.p) THEN
+    IF r.e = "fk" THEN m          \* a virtual key operated from outside: no output is recorded with the step itself
+    ELSE IF HasNoOp(r.out) THEN Fail(m, "C11 I2: a reserved no-op code was sent to the OS (with the input event)")
+    ELSE m
   ELSE IF r.e \in {"d", "u"} THEN
     IF r.out # <<>> THEN Fail(m, "C11 I4: output while the input event was only queued")
     ELSE [m EXCEPT !.pending = Append(@, [p |-> r.e = "d", c |-> r.c])]
@@ -58,6 +70,7 @@ MonIn(m, r) ==
 MonTick(m, out, idle, cb) ==
   IF m.err # "" THEN m
   ELSE IF HasNoOp(out) THEN Fail(m, "C11 I2: a reserved no-op code was sent to the OS")
+  ELSE IF PathsMode(m.p) THEN m
   ELSE IF m.pending = <<>>
   THEN IF out # <<>> THEN Fail(m, "C11 I4: output without input") ELSE m
   ELSE LET ev == Head(m.pending)
